@@ -221,6 +221,13 @@ def run_combo(ctx, C, typ, syn, kind, key, vals, subset, orig_sc, can_patch, for
         got = getattr(cfg, kind).get(key, ABSENT)
         if got != exp:
             ctx.violation('wrong-layer', case, {'expected': exp, 'actual': got, 'where': 'Config.' + kind})
+        else:
+            # the object's own accessor (what the library's modules read a resolved value through) shows the same effective value
+            ctx.mon('oracle:accessor-shows-effective-value')
+            tbl = core.call(cfg.get, kind)
+            via = tbl[1].get(key, ABSENT) if tbl[0] == 'ok' and isinstance(tbl[1], dict) else 'no table: %r' % (tbl[1],)
+            if via != exp:
+                ctx.violation('wrong-layer', case, {'expected': exp, 'actual': via, 'where': 'Config.get(%r)' % kind})
         # through expand (fresh copies of the caller dictionaries)
         want = exp
         if kind == 'snippets' and exp is ABSENT:
@@ -316,6 +323,12 @@ def run_multi(ctx, C, typ, syn, rng, orig_sc, can_patch):
             ctx.mon('oracle:layer-order-multi')
             if got != exp:
                 ctx.violation('wrong-layer', case, {'key': [kind, key], 'subset': list(subset), 'expected': exp, 'actual': got, 'where': 'Config.' + kind})
+                continue
+            ctx.mon('oracle:accessor-shows-effective-value')
+            tbl = core.call(cfg.get, kind)
+            via = tbl[1].get(key, ABSENT) if tbl[0] == 'ok' and isinstance(tbl[1], dict) else 'no table: %r' % (tbl[1],)
+            if via != exp:
+                ctx.violation('wrong-layer', case, {'key': [kind, key], 'subset': list(subset), 'expected': exp, 'actual': via, 'where': 'Config.get(%r)' % kind})
                 continue
             want = exp
             if kind == 'snippets' and exp is ABSENT:
